@@ -8,7 +8,9 @@ VerArgs == VersionTexts \cup {<<>>}
 Steps1 == {<< <<p, k>> >> : p \in Paths, k \in Kinds}
 Steps2 == {<< <<p, k>>, <<q, j>> >> : p \in Paths, k \in Kinds, q \in {"append", "meta_set", "colmeta_set", "setitem"}, j \in Kinds}
 CtorCases == {[t |-> "ctor", ver |-> v, path |-> p, kind |-> k] : v \in VerArgs, p \in CtorPaths, k \in Kinds}
-SeqCases  == {[t |-> "seq", ver |-> v, steps |-> s] : v \in VerArgs, s \in Steps1 \cup Steps2}
+SeqVers == {T20, T30, T25, T200, T3, <<>>}      \* sequences of stores: a representative subset of the version spellings
+SeqCases  == {[t |-> "seq", ver |-> v, steps |-> s] : v \in VerArgs, s \in Steps1}
+             \cup {[t |-> "seq", ver |-> v, steps |-> s] : v \in SeqVers, s \in Steps2}
 
 VARIABLE c
 Init == c \in CtorCases \cup SeqCases
@@ -23,6 +25,6 @@ Emit == /\ Holds
         /\ PrintT(ToJson([c |-> c, expect |-> Expect(c)]))
 \* the decision table of the five deciders
 Table == [v \in VersionTexts |-> [k \in Only3 |-> Accepts(v, k)]]
-ASSUME PrintT(ToJson([table |-> [i \in 1..6 |-> LET v == <<T20, T30, T25, T300, T10, T40>>[i]
+ASSUME PrintT(ToJson([table |-> [i \in 1..10 |-> LET v == <<T20, T30, T25, T300, T10, T40, T200, T2000, T2, T3>>[i]
                                                  IN [ver |-> v, pre3 |-> Pre3(v)]]]))
 =============================================================================
